@@ -9,8 +9,8 @@
 (*   list    a select list of five expressions in two orders                 *)
 EXTENDS WorldC02, Arith, Lang, Json, FiniteSets
 
-VARIABLES kind, exprs, wop, wlit, style, phase
-vars == <<kind, exprs, wop, wlit, style, phase>>
+VARIABLES kind, exprs, wop, wlit, style, lits, phase
+vars == <<kind, exprs, wop, wlit, style, lits, phase>>
 
 F15(i, nm, sz, lt) == N(i, 0, "file", nm, Runs(sz, 0), 420, 0, 0, T0 + i, lt, -3)
 W15 == [nodes |-> << F15(1, <<"a","a">>, 12, 0), F15(2, <<"b","b","b">>, 7, 0), F15(3, <<"c","c">>, 7, 2),
@@ -32,7 +32,7 @@ Negs == { <<"neg", a>> : a \in Leaves6 } \cup { <<o, <<"neg">>[1], a, b>> : o \i
         \cup { <<"neg", "neg", a>> : a \in {"size", "3", "length(name)"} }
         \cup { <<"neg", "neg", "+", "size", "1">>, <<"-", "10", "neg", "neg", "3">>, <<"neg", "neg", "neg", "size">>, <<"*", "neg", "neg", "size", "2">> }
 
-Init == kind = "" /\ exprs = <<>> /\ wop = "" /\ wlit = 0 /\ style = "min" /\ phase = "start"
+Init == kind = "" /\ exprs = <<>> /\ wop = "" /\ wlit = 0 /\ style = "min" /\ lits = <<>> /\ phase = "start"
 ChooseOne == /\ phase = "start" /\ kind' = "one" /\ \E e \in One \cup TwoL \cup TwoR \cup Negs : exprs' = <<e>>
              /\ style' \in {"min", "full"} /\ wop' = "" /\ wlit' = 0 /\ phase' = "done"
 ChoosePairOp == /\ phase = "start" /\ kind' = "pairop"
@@ -52,11 +52,19 @@ Lists == { << <<"+", "size", "1">>, <<"-", "size", "1">>, <<"*", "size", "2">>, 
            << <<"*", "neg", "+", "size", "1", "2">>, <<"neg", "+", "size", "1">>, <<"neg", "+", "size", "1">>, <<"+", "size", "1">> >>,
            << <<"neg", "%", "size", "5">>, <<"%", "size", "5">>, <<"neg", "%", "size", "5">>, <<"-", "10", "neg", "*", "size", "2">>, <<"neg", "*", "size", "2">> >> }
 ChooseList == /\ phase = "start" /\ kind' = "list" /\ exprs' \in Lists /\ style' = "min" /\ wop' = "" /\ wlit' = 0 /\ phase' = "done"
-Next == ChooseOne \/ ChoosePairOp \/ ChoosePairBr \/ ChooseWhere \/ ChooseList
+(* text literals that spell the internal name of a column or of an expression selected next to them (the key of the per-row value   *)
+(* cache): each column shows its own value - the literal its text, the expression its number - in either order                      *)
+KeyTexts == << <<"S","i","z","e">>, <<"(","S","i","z","e"," ","+"," ","1",")">>, <<"L","e","n","g","t","h","(","N","a","m","e",")">>, <<"H","a","r","d","l","i","n","k","s">> >>
+ChooseKeyText == /\ phase = "start" /\ kind' \in {"keytext-after", "keytext-before"}
+                 /\ exprs' = << <<"size">>, <<"+", "size", "1">>, <<"length(name)">>, <<"hardlinks">> >> /\ lits' = KeyTexts
+                 /\ style' = "min" /\ wop' = "" /\ wlit' = 0 /\ phase' = "done"
+Next == ((ChooseOne \/ ChoosePairOp \/ ChoosePairBr \/ ChooseWhere \/ ChooseList) /\ lits' = <<>>) \/ ChooseKeyText
 Spec == Init /\ [][Next]_vars
 
 RECURSIVE ColsText(_)
 ColsText(i) == IF i > Len(exprs) THEN "" ELSE ", " \o ArithText(exprs[i], style) \o ColsText(i + 1)
+RECURSIVE LitsText(_)
+LitsText(i) == IF i > Len(lits) THEN "" ELSE ", '" \o Str(lits[i]) \o "'" \o LitsText(i + 1)
 HasTok(t) == \E j \in 1 .. Len(exprs) : \E i \in 1 .. Len(exprs[j]) : exprs[j][i] = t
 NegOnColumn == \E j \in 1 .. Len(exprs) : \E i \in 1 .. Len(exprs[j]) - 1 :
                   exprs[j][i] = "neg" /\ exprs[j][i + 1] \in {"size", "hardlinks", "length(name)"}
@@ -66,10 +74,11 @@ Class == kind \o (IF BareLiteral THEN "/bare-literal" ELSE "") \o (IF NegOnColum
          \o (IF HasTok("neg") /\ ~NegOnColumn /\ ~NegOnBracket THEN "/minus-number" ELSE "") \o "/" \o style
 Query == IF kind = "where"
          THEN "select path from '.' where " \o ArithText(exprs[1], style) \o " " \o OpText(wop) \o " " \o ToString(wlit) \o " into list"
-         ELSE "select path" \o ColsText(1) \o " from '.' into list"
-Scenario == [prop |-> "C15", world |-> "W15", class |-> Class, kind |-> kind, exprs |-> exprs, wop |-> wop, wlit |-> wlit,
+         ELSE IF kind = "keytext-before" THEN "select path" \o LitsText(1) \o ColsText(1) \o " from '.' into list"
+         ELSE "select path" \o ColsText(1) \o LitsText(1) \o " from '.' into list"
+Scenario == [prop |-> "C15", world |-> "W15", class |-> Class, kind |-> kind, exprs |-> exprs, wop |-> wop, wlit |-> wlit, lits |-> lits,
              env |-> [tz |-> "UTC", cwd |-> 0],
-             runs |-> << [tag |-> "q", ncols |-> IF kind = "where" THEN 1 ELSE 1 + Len(exprs), chars |-> TRUE, argv |-> << Query >>] >>]
+             runs |-> << [tag |-> "q", ncols |-> IF kind = "where" THEN 1 ELSE 1 + Len(exprs) + Len(lits), chars |-> TRUE, argv |-> << Query >>] >>]
 EmitWorld == (phase = "start") => PrintT(<<"WORLD", ToJson([key |-> "W15", world |-> W15])>>)
 Emit == phase = "done" => PrintT(<<"REPLAY", ToJson(Scenario)>>)
 =============================================================================
